@@ -420,6 +420,39 @@ func c12Import(run *ev.Run, chain *allChain, seed string, mode importMode, state
 			}
 		}
 	}()
+	// derived time-queues restored by the import must be consistent with the imported objects (they decide whether
+	// the re-imported chain will process its due items); judged as the state after the block before the import height
+	func() {
+		defer func() {
+			if rec := recover(); rec != nil {
+				run.Violation(fmt.Sprintf("C12:imported-queue-check-panicked:%s", tag), det, "walking the imported queues panicked: %v", rec)
+			}
+		}()
+		qctx := ctxB.WithBlockHeight(height - 1)
+		fams := map[string]func(*rig.Rig, sdk.Context) []string{"htlc": htlcQueueCheck, "service": serviceQueueCheck, "random": randomQueueCheck}
+		if !mode.ZeroHeight { // farm keeps absolute heights across a zero-height export (listed finding)
+			fams["farm"] = farmQueueCheck
+		}
+		for _, m := range scope {
+			chk := fams[m]
+			if chk == nil {
+				continue
+			}
+			run.Eval(1)
+			for _, l := range chk(b, qctx) {
+				slug := l
+				if i := strings.IndexAny(l, ": "); i > 0 {
+					slug = l[:i]
+				}
+				if mode.ZeroHeight && slug == "queue-entry-before-request-height" {
+					continue // the preparation step shifts queue heights to the new chain; the request keeps the old chain's height, which only feeds its id
+				}
+				d := map[string]any{"mode": mode.Name, "module": m, "line": l, "source_height": a.Height}
+				run.Violation(fmt.Sprintf("C12:imported-queue-inconsistent:%s:%s:%s", tag, m, slug), d, "%s: after import the %s time queue disagrees with the imported objects: %s", tag, m, l)
+			}
+			run.Class("imported-queue", tag, m)
+		}
+	}()
 	// queries
 	for _, m := range scope {
 		disc := c12Discover[m]
